@@ -512,6 +512,20 @@ func c19Shards(tier string) []mc.Shard {
 						}
 					}
 				}
+				// near-twins (parameters a hair apart, on either side of whatever tolerance
+				// the implementation uses): whether they are equal is its business, but the
+				// answer must not depend on which one is asked
+				for _, tw := range [][2]float64{{g0, o0 + 1e-13}, {g0, o0 - 1e-13}, {g0, o0 + 3e-12*math.Max(1, math.Abs(o0))}, {g0, o0 * (1 + 5e-13)},
+					{g0 * (1 + 5e-13), o0}, {g0 * (1 + 3e-12), o0}, {g0 * (1 - 5e-13), o0 * (1 - 5e-13)}} {
+					if !(tw[0] > 1) {
+						continue
+					}
+					t := MapSpec{Kind: c.Kind, Gamma: tw[0], Offset: tw[1]}.New()
+					res.Evaluations++
+					if e1, e2 := m.Equals(t), t.Equals(m); e1 != e2 {
+						fail("C19.symmetric", "%s.Equals(%s)=%v but the converse is %v", c, MapSpec{Kind: c.Kind, Gamma: tw[0], Offset: tw[1]}, e1, e2)
+					}
+				}
 				for form, r := range forms {
 					if !m.Equals(r) || !r.Equals(m) {
 						fail("C19.equal-after-round-trip", "%s: the mapping read back from its %s form is not equal to the original", c, form)
